@@ -136,6 +136,15 @@ macro_rules! accessors {
 }
 
 
+/// The comparison operators as the user writes them: [<, <=, >, >=, !=].
+#[allow(clippy::nonminimal_bool)]
+fn ops5<A, B>(a: &A, b: &B) -> Value
+where
+    A: PartialOrd<B>,
+{
+    json!([(a < b) as i32, (a <= b) as i32, (a > b) as i32, (a >= b) as i32, (a != b) as i32])
+}
+
 fn cmp3<A, B>(a: &A, b: &B) -> Value
 where
     A: PartialOrd<B>,
@@ -217,7 +226,7 @@ fn exec_inner(op: &str, a: &[Value]) -> Value {
             return ok(Value::Array(parts));
         }
         "ord" => {
-            let parts: Vec<Value> = ["cmp", "eq", "hash_eq"]
+            let parts: Vec<Value> = ["cmp", "eq", "hash_eq", "ops"]
                 .iter()
                 .map(|n| payload(exec_inner(&format!("{}.{}", ty, n), a)))
                 .collect();
@@ -227,7 +236,8 @@ fn exec_inner(op: &str, a: &[Value]) -> Value {
             let other = &name[4..];
             let c = payload(exec_inner(&format!("{}.cmp_{}", ty, other), a));
             let e = payload(exec_inner(&format!("{}.eq_{}", ty, other), a));
-            return ok(json!([c, e]));
+            let o = payload(exec_inner(&format!("{}.ops_{}", ty, other), a));
+            return ok(json!([c, e, o]));
         }
         "roundtrip" => {
             // format -> parse -> format with the same picture; later parts only if the earlier succeeded
@@ -423,11 +433,14 @@ fn exec_date(name: &str, a: &[Value]) -> Option<Value> {
         "now" => res(Date::now(), r_date),
         "last_day_of_month" => ok(r_date(a_date(&a[0]).last_day_of_month())),
         "cmp" => ok(r_ord(a_date(&a[0]).cmp(&a_date(&a[1])))),
+        "ops" => ok(ops5(&a_date(&a[0]), &a_date(&a[1]))),
         "eq" => ok(r_bool(a_date(&a[0]) == a_date(&a[1]))),
         "hash_eq" => ok(r_bool(h(&a_date(&a[0])) == h(&a_date(&a[1])))),
         "cmp_ts" => ok(cmp3(&a_date(&a[0]), &a_ts(&a[1]))),
+        "ops_ts" => ok(ops5(&a_date(&a[0]), &a_ts(&a[1]))),
         "eq_ts" => ok(r_bool(a_date(&a[0]) == a_ts(&a[1]))),
         "cmp_od" => ok(cmp3(&a_date(&a[0]), &a_od(&a[1]))),
+        "ops_od" => ok(ops5(&a_date(&a[0]), &a_od(&a[1]))),
         "eq_od" => ok(r_bool(a_date(&a[0]) == a_od(&a[1]))),
         "format" => {
             let pic = a_txt(&a[1]);
@@ -486,9 +499,11 @@ fn exec_time(name: &str, a: &[Value]) -> Option<Value> {
         "from_dt" => ok(r_time(Time::from(a_dt(&a[0])))),
         "from_od" => ok(r_time(Time::from(a_od(&a[0])))),
         "cmp" => ok(r_ord(a_time(&a[0]).cmp(&a_time(&a[1])))),
+        "ops" => ok(ops5(&a_time(&a[0]), &a_time(&a[1]))),
         "eq" => ok(r_bool(a_time(&a[0]) == a_time(&a[1]))),
         "hash_eq" => ok(r_bool(h(&a_time(&a[0])) == h(&a_time(&a[1])))),
         "cmp_dt" => ok(cmp3(&a_time(&a[0]), &a_dt(&a[1]))),
+        "ops_dt" => ok(ops5(&a_time(&a[0]), &a_dt(&a[1]))),
         "eq_dt" => ok(r_bool(a_time(&a[0]) == a_dt(&a[1]))),
         "format" => {
             let pic = a_txt(&a[1]);
@@ -551,11 +566,14 @@ fn exec_ts(name: &str, a: &[Value]) -> Option<Value> {
         "try_from_time" => res(Timestamp::try_from(a_time(&a[0])), r_ts),
         "last_day_of_month" => ok(r_ts(a_ts(&a[0]).last_day_of_month())),
         "cmp" => ok(r_ord(a_ts(&a[0]).cmp(&a_ts(&a[1])))),
+        "ops" => ok(ops5(&a_ts(&a[0]), &a_ts(&a[1]))),
         "eq" => ok(r_bool(a_ts(&a[0]) == a_ts(&a[1]))),
         "hash_eq" => ok(r_bool(h(&a_ts(&a[0])) == h(&a_ts(&a[1])))),
         "cmp_d" => ok(cmp3(&a_ts(&a[0]), &a_date(&a[1]))),
+        "ops_d" => ok(ops5(&a_ts(&a[0]), &a_date(&a[1]))),
         "eq_d" => ok(r_bool(a_ts(&a[0]) == a_date(&a[1]))),
         "cmp_od" => ok(cmp3(&a_ts(&a[0]), &a_od(&a[1]))),
+        "ops_od" => ok(ops5(&a_ts(&a[0]), &a_od(&a[1]))),
         "eq_od" => ok(r_bool(a_ts(&a[0]) == a_od(&a[1]))),
         "format" => {
             let pic = a_txt(&a[1]);
@@ -611,6 +629,7 @@ fn exec_ym(name: &str, a: &[Value]) -> Option<Value> {
         "div_f64" => res(a_ym(&a[0]).div_f64(a_f64(&a[1])), r_ym),
         "neg" => ok(r_ym(-a_ym(&a[0]))),
         "cmp" => ok(r_ord(a_ym(&a[0]).cmp(&a_ym(&a[1])))),
+        "ops" => ok(ops5(&a_ym(&a[0]), &a_ym(&a[1]))),
         "eq" => ok(r_bool(a_ym(&a[0]) == a_ym(&a[1]))),
         "hash_eq" => ok(r_bool(h(&a_ym(&a[0])) == h(&a_ym(&a[1])))),
         "format" => {
@@ -669,9 +688,11 @@ fn exec_dt(name: &str, a: &[Value]) -> Option<Value> {
         "neg" => ok(r_dt(-a_dt(&a[0]))),
         "from_time" => ok(r_dt(IntervalDT::from(a_time(&a[0])))),
         "cmp" => ok(r_ord(a_dt(&a[0]).cmp(&a_dt(&a[1])))),
+        "ops" => ok(ops5(&a_dt(&a[0]), &a_dt(&a[1]))),
         "eq" => ok(r_bool(a_dt(&a[0]) == a_dt(&a[1]))),
         "hash_eq" => ok(r_bool(h(&a_dt(&a[0])) == h(&a_dt(&a[1])))),
         "cmp_t" => ok(cmp3(&a_dt(&a[0]), &a_time(&a[1]))),
+        "ops_t" => ok(ops5(&a_dt(&a[0]), &a_time(&a[1]))),
         "eq_t" => ok(r_bool(a_dt(&a[0]) == a_time(&a[1]))),
         "format" => {
             let pic = a_txt(&a[1]);
@@ -738,11 +759,14 @@ fn exec_od(name: &str, a: &[Value]) -> Option<Value> {
         "now" => res(OracleDate::now(), r_od),
         "last_day_of_month" => ok(r_od(a_od(&a[0]).last_day_of_month())),
         "cmp" => ok(r_ord(a_od(&a[0]).cmp(&a_od(&a[1])))),
+        "ops" => ok(ops5(&a_od(&a[0]), &a_od(&a[1]))),
         "eq" => ok(r_bool(a_od(&a[0]) == a_od(&a[1]))),
         "hash_eq" => ok(r_bool(h(&a_od(&a[0])) == h(&a_od(&a[1])))),
         "cmp_ts" => ok(cmp3(&a_od(&a[0]), &a_ts(&a[1]))),
+        "ops_ts" => ok(ops5(&a_od(&a[0]), &a_ts(&a[1]))),
         "eq_ts" => ok(r_bool(a_od(&a[0]) == a_ts(&a[1]))),
         "cmp_d" => ok(cmp3(&a_od(&a[0]), &a_date(&a[1]))),
+        "ops_d" => ok(ops5(&a_od(&a[0]), &a_date(&a[1]))),
         "eq_d" => ok(r_bool(a_od(&a[0]) == a_date(&a[1]))),
         "to_time" => ok(r_time(Time::from(a_od(&a[0])))),
         "format" => {
